@@ -151,6 +151,20 @@ pub fn gen_c14(tier: &str, seed: u64, out: &str, mc: Option<&str>, release_exe: 
                 // reserve or expand anything before the offending element has been looked at
                 let front = match v % 3 { 0 => 0u64, 1 => a5::lonlat_to_cell(LonLat::new(7.0, 50.0), 0).unwrap(), _ => a5::lonlat_to_cell(LonLat::new(7.0, 50.0), 9).unwrap() };
                 vec![front, id]
+            } else if f == "compact" && v == 1 && status == "canonical" && a5::get_resolution(id) >= 2 {
+                // the complete staircase from this cell up to the world cell: at every level all siblings of the ancestor
+                // (valid, canonical, non-overlapping input that merges once per level, as many passes as there are levels)
+                let mut l = vec![];
+                let mut cur = id;
+                loop {
+                    let r0 = a5::get_resolution(cur);
+                    if r0 < 0 { break; }
+                    let parent = a5::cell_to_parent(cur, None).unwrap();
+                    let sibs = a5::cell_to_children(parent, Some(r0)).unwrap();
+                    if l.is_empty() { l.extend(sibs.iter().copied()); } else { l.extend(sibs.iter().copied().filter(|&x| x != cur)); }
+                    cur = parent;
+                }
+                l
             } else if f == "compact" && v >= 2 {
                 // runs of consecutive top-six-bit values carrying the marker of the cell under test (sibling arithmetic
                 // on malformed IDs must not overflow)
